@@ -561,7 +561,25 @@ def check_history_tree(case, R):
         trees.append((p, lens, bank, t, read_tree(t)[1]))
     live = []
     order = list(range(len(trees))) + [0]
+
+    def failing_calls():
+        """Calls that the library is entitled to refuse (a tree with custom column names - refused inside the assembler on the pinned
+        tree -, non-finite coordinates, not a tree at all): whatever they leave behind in the instance must not reach the next result."""
+        from swcgeom.core import Tree
+        from swcgeom.core.swc_utils import SWCNames
+
+        p0, _l, _b, t0, _pts = trees[0]
+        nm_ = SWCNames(id="n", type="t", x="xx", y="yy", z="zz", r="radius", pid="parent")
+        ren = {"id": "n", "type": "t", "x": "xx", "y": "yy", "z": "zz", "r": "radius", "pid": "parent"}
+        bad1 = Tree(len(p0), names=nm_, **{ren[k_]: t0.get_ndata(k_).copy() for k_ in ren})
+        bad2 = t0.copy()
+        bad2.ndata["x"][-1] = np.nan
+        for b_ in (bad1, bad2, None):
+            R.attempt(inst, b_)
+
     for step, k in enumerate(order):
+        if step == 1:
+            failing_calls()  # after the first good call and before the second
         p, lens, bank, t, pts = trees[k]
         nm = f"history[{kind}] call {step + 1} of {len(order) + 1} on p={p} lens={lens} bank={bank} (inputs so far: {[trees[j][0] for j in order[:step]]})"
         ok, res = call(R, f"history:{klass}", "", nm, lambda: inst(t))
